@@ -8,7 +8,7 @@ use crate::child::{ChildSpec, SigReact};
 use crate::ctx::{Ev, Policy, RunOut};
 use crate::e1::{self, ChildRec};
 use crate::e2::SIGNAL_ID_BASE;
-use crate::e3::{self, E3Kind, E3Scn, E3Step};
+use crate::e3::{self, sig_no, E3Kind, E3Scn, E3Step};
 use crate::p_e1::oracle_c04;
 use crate::rng::Rng;
 
@@ -122,13 +122,19 @@ pub fn oracle_c05(scn: &E3Scn, d: &D3, out: &RunOut, stats: &mut Stats) -> Vec<V
     }
     let stop_sig = scn.stop_sig_no();
     let busy_sig = scn.busy_sig_no();
+    // signals sent to watchexec itself that the CLI passes on to the command
+    let forwarded: Vec<i32> = scn.steps.iter().filter_map(|s| if let E3Kind::Signal { sig } = s.kind { Some(sig) } else { None }).collect();
+    if !forwarded.is_empty() {
+        stats.hit("probe:signal-forwarded-to-command");
+    }
     for (k, c) in &pre {
         for s in c.signals.iter().filter(|s| s.1 < qseq) {
-            let ok = match mode {
-                "signal" => s.2 == busy_sig,
-                "restart" => s.2 == stop_sig,
-                _ => false,
-            };
+            let ok = forwarded.contains(&s.2)
+                || match mode {
+                    "signal" => s.2 == busy_sig,
+                    "restart" => s.2 == stop_sig,
+                    _ => false,
+                };
             if !ok {
                 vs.push(Violation::new("unexpected-signal", mode, format!("mode {mode}: child {k} received signal {} at t={}", s.2, s.0)));
             }
@@ -208,7 +214,8 @@ pub fn oracle_c05(scn: &E3Scn, d: &D3, out: &RunOut, stats: &mut Stats) -> Vec<V
         let c = &pre_children[k];
         // the child is still alive at the decision instant and not already being stopped
         let alive_td = c.exit.map(|e| e.0 > td || (e.0 == td && e.1 >= 1000)).unwrap_or(true);
-        let being_stopped = c.signals.iter().any(|s| s.1 < bseq) || c.kills.iter().any(|x| x.1 < bseq);
+        // (a child that was sent a forwarded signal may be on its way out for reasons of its own: not timed)
+        let being_stopped = c.signals.iter().any(|s| s.1 < bseq || forwarded.contains(&s.2)) || c.kills.iter().any(|x| x.1 < bseq);
         // other batches delivered inside [tb, td] make attribution ambiguous
         let crowded = change_batches.iter().any(|o| o.1 != bseq && o.0 >= tb && o.0 <= td);
         if !alive_td || being_stopped || crowded {
@@ -223,7 +230,7 @@ pub fn oracle_c05(scn: &E3Scn, d: &D3, out: &RunOut, stats: &mut Stats) -> Vec<V
                 }
             }
             "signal" => {
-                let sigs: Vec<_> = c.signals.iter().filter(|s| s.1 > bseq && s.1 < next_b).collect();
+                let sigs: Vec<_> = c.signals.iter().filter(|s| s.1 > bseq && s.1 < next_b && s.2 == busy_sig).collect();
                 if sigs.len() != 1 || sigs[0].0 != td {
                     vs.push(Violation::new(
                         "signal-mode-wrong-signalling",
@@ -233,7 +240,7 @@ pub fn oracle_c05(scn: &E3Scn, d: &D3, out: &RunOut, stats: &mut Stats) -> Vec<V
                 }
             }
             "restart" => {
-                let sig = c.signals.iter().find(|s| s.1 > bseq);
+                let sig = c.signals.iter().find(|s| s.1 > bseq && s.2 == stop_sig);
                 match sig {
                     Some(s) if s.0 == td && s.2 == stop_sig => {
                         let deadline = td + timeout;
@@ -416,6 +423,17 @@ pub fn gen_cli(rng: &mut Rng) -> E3Scn {
             _ => 3000,
         };
         steps.push(E3Step { gap, kind: E3Kind::Change { id: 10 + i as u32 } });
+    }
+    // signals that the CLI forwards to the command (HUP / USR1 / USR2 / QUIT), some landing in the same debounce
+    // window as a change
+    let reserved = [sig_no(stop_signal.as_deref().unwrap_or("TERM")), sig_no(stop_signal.as_deref().or(signal.as_deref()).unwrap_or("TERM"))];
+    let fwd: Vec<i32> = [1, 10, 12, 3].into_iter().filter(|s| !reserved.contains(s)).collect();
+    if !fwd.is_empty() && rng.chance(1, 3) {
+        for _ in 0..rng.range(1, 2) {
+            let at = rng.below(steps.len() as u64 + 1) as usize;
+            let gap = if rng.chance(1, 2) { 0 } else { *rng.pick(&[1u64, 20, 300]) };
+            steps.insert(at, E3Step { gap, kind: E3Kind::Signal { sig: *rng.pick(&fwd) } });
+        }
     }
     E3Scn {
         family: "cli".into(),
